@@ -15,7 +15,8 @@ type SpecCtx struct {
 	p    *Path
 	st   *State
 	old  *State
-	vars map[string]Val
+	vars map[string]Val // bound names: quantifier variables, results, callee parameters at call sites
+	params map[string]Val // parameters of the function under verification (shadowed by its locals outside old())
 	pkg  *types.Package // resolves type names and globals
 	fn   *ssa.Function  // resolves locals (may be nil)
 	loop *ssa.BasicBlock
@@ -23,6 +24,7 @@ type SpecCtx struct {
 	inOld bool
 	atExit bool
 	closureCells map[string]Val
+	cur *State // for now(e): the state at the point of the check (step/exit clauses evaluate in the loop-start state)
 }
 
 type specErr string
@@ -265,6 +267,9 @@ func (c *SpecCtx) ident(name string) Val {
 			return v
 		}
 	}
+	if v, ok := c.params[name]; ok {
+		return v
+	}
 	// package-level object
 	if c.pkg != nil {
 		if o := c.pkg.Scope().Lookup(name); o != nil {
@@ -360,7 +365,7 @@ func (c *SpecCtx) addrOpt(e Expr) (string, types.Type) {
 		if _, bound := c.vars[x.Name]; bound {
 			return "", nil
 		}
-		if c.fn != nil {
+		if c.fn != nil && !c.inOld {
 			if a, t, ok := c.p.localCell(x.Name); ok {
 				return a, t
 			}
@@ -586,6 +591,13 @@ func (c *SpecCtx) call(x *ECall) Val {
 		return c.eval(x.Args[i])
 	}
 	switch x.Fun {
+	case "now":
+		if c.cur == nil {
+			return c.eval(x.Args[0])
+		}
+		d := *c
+		d.st = c.cur
+		return d.eval(x.Args[0])
 	case "old":
 		if c.old == nil {
 			c.fail("old() not available here")
